@@ -47,8 +47,11 @@ RULE = (
     "Hypothesis draws the payload (1-40 parameters, 1-D or 2-D, up to ~1500 numbers each so that one "
     "parameter alone spans several 8 KiB buffers; the total is bounded by the schedule depth), the call "
     "site (save_parameters with defaults; MCMC.save_full_state; Optimizer.save_full_state; the checkpoint "
-    "step of MCMC.run / Optimizer.run / HMC.run executed for one real iteration; all objects built from "
-    "JSON), the number of pieces a raw write is delivered in (1 or 2: partial writes), the depth L in 1..4 "
+    "step of MCMC.run / HMC.run / Optimizer.run executed for one real iteration - Optimizer._run with a drawn "
+    "optimiser family (Adam, AdamW, SGD+momentum, Adagrad, RMSprop), Optimizer._run_closure with LBFGS, each "
+    "with checkpoint_all off (one name, rewritten) and on (a file per epoch; checkpoint name with and "
+    "without '.json'; the oracle there: no file that held a complete checkpoint becomes incomplete, and a "
+    "complete one exists); all objects built from JSON), the number of pieces a raw write is delivered in (1 or 2: partial writes), the depth L in 1..4 "
     "and which member represents a directory shape. Per case the crash points of each write are enumerated "
     "exhaustively: one forked child per boundary 'after file-system operation k' (open, every raw write "
     "piece, close, rename, remove; 'after op k' and 'before op k+1' are the same instant of the file "
@@ -75,9 +78,8 @@ ASSUMPTIONS = [
     "no power failure: what the OS has accepted survives (os._exit / SIGKILL semantics, no fsync modelling)",
     "the first write into an empty directory is outside the property ('written over an existing one'); every "
     "schedule starts from a directory holding one complete checkpoint",
-    "checkpoint_all (a fresh file name per epoch, overwrite=True) does not write over an existing checkpoint when the "
-    "name contains '.json'; only the case where it does (a name without '.json', site optimizer_run_all in the "
-    "sub-check 'fixed') is a call site here",
+    "checkpoint_all (a fresh file name per epoch, overwrite=True): consecutive writes of a schedule are the checkpoints of "
+    "consecutive epochs; a re-run that meets per-epoch files of an earlier run (in-place overwrite by design) is not generated",
     "a failing operation is not performed at all (a write that fails has written nothing; with 2 pieces per raw write "
     "the first piece may be on disk); close releases the descriptor even when it reports an error; 'sticky' "
     "failures affect writes only (rename/remove need no space)",
@@ -294,7 +296,7 @@ def _send(fd, obj):
         off += os.write(fd, data[off:])
 
 
-def run_write(write, path, crash_at, pieces, seed=0, fault=None, versions=None, name=None):
+def run_write(write, path, crash_at, pieces, seed=0, fault=None, versions=None, oracle=None, pre=None):
     """fork; in the child run write(path) with the k-th file-system operation being the last one.
     crash_at=None: run to completion and report the operation trace.
     fault: a failing operation (see _Counter); the child then judges the directory after every later
@@ -321,8 +323,8 @@ def run_write(write, path, crash_at, pieces, seed=0, fault=None, versions=None, 
                 for fn in sorted(os.listdir(d_)):
                     with real_open(os.path.join(d_, fn), "rb") as fh:
                         st_[fn] = fh.read()
-                v = judge(st_, versions, name)
-                obs.append({"n": n, "op": what, "verdict": v, "shape": shape_of(st_, versions, name),
+                v = oracle.judge(pre, st_, versions)
+                obs.append({"n": n, "op": what, "verdict": v, "shape": oracle.shape(st_, versions),
                             "dir": {fn: describe(b, versions) for fn, b in st_.items()} if v else None})
 
             counter = _Counter(crash_at, pieces, fault, observe if fault else None)
@@ -437,6 +439,34 @@ def judge(state, versions, name=CK):
     return out
 
 
+class Oracle:
+    """the property on one directory.  Single checkpoint name: `judge` / `shape_of` above.  all_files
+    (checkpoint_all: a file per epoch): whichever file a write goes over, a file that held a complete
+    checkpoint before the write began never becomes an incomplete one, and some complete checkpoint
+    exists; a file that did not exist before may be partial (nothing is written over)."""
+
+    def __init__(self, name=CK, all_files=False):
+        self.name = name
+        self.all_files = all_files
+
+    def shape(self, state, versions):
+        if not self.all_files:
+            return shape_of(state, versions, self.name)
+        return "|".join("%s:%s" % (fn, classify(b, versions)[0]) for fn, b in sorted(state.items())) or "empty"
+
+    def judge(self, pre, post, versions):
+        if not self.all_files:
+            return judge(post, versions, self.name)
+        out = []
+        for fn, b in sorted(post.items()):
+            if classify(b, versions)[0] != "V" and classify(pre.get(fn), versions)[0] == "V":
+                trunc = b is not None and any(v.startswith(b) for v in versions)
+                out.append(("name_truncated" if trunc else "name_corrupt", "%s: %s" % (fn, describe(b, versions))))
+        if not any(classify(b, versions)[0] == "V" for b in post.values()):
+            out.append(("lost", "no complete checkpoint in the directory"))
+        return out
+
+
 def opkind(op):
     return op.split(" ", 1)[0]
 
@@ -487,12 +517,13 @@ def fault_points(fault, trace, nbytes):
     return out
 
 
-def explore(write_of, versions, depth, pieces, picks, tmp, res, tags, ident, seed=0, max_fail=6, name=CK, fault=None):
+def explore(write_of, versions, depth, pieces, picks, tmp, res, tags, ident, seed=0, max_fail=6, name=CK, fault=None, oracle=None, first_name=None):
     """write_of(i) -> callable(path) that writes version i (run in a forked child).
     Appends failures to res; returns (executions, non-trivial keys, label counts, frontier per level)."""
     d = os.path.join(tmp, "run")
     os.makedirs(d, exist_ok=True)
     path = os.path.join(d, name)
+    oracle = oracle or Oracle(name)
     labels = {}
     keys = []
     evals = 0
@@ -509,13 +540,13 @@ def explore(write_of, versions, depth, pieces, picks, tmp, res, tags, ident, see
         res.fail(kind, detail, **t)
 
     # a frontier entry: (state, history, inside) ; history = list of step descriptions
-    frontier = [({name: versions[0]}, [], False)]
+    frontier = [({first_name or name: versions[0]}, [], False)]
     for level in range(1, depth + 1):
         known = versions[: level + 1]
         write = write_of(level)
         classes = {}  # shape -> list of (state, history, inside)
         for state, hist, had_inside in frontier:
-            pre_shape = shape_of(state, versions[:level], name)
+            pre_shape = oracle.shape(state, versions[:level])
             code, info, posts = crash_states(write, state, d, path, pieces, seed)
             trace = info["trace"]
             n_ops = len(trace)
@@ -535,14 +566,14 @@ def explore(write_of, versions, depth, pieces, picks, tmp, res, tags, ident, see
                 lab("pre:" + pre_shape)
                 if inside and level >= 2 and had_inside:
                     keys.append((ident, [h["point"] for h in hist] + [step["point"]]))
-                verdict = judge(post, known, name)
+                verdict = oracle.judge(state, post, known)
                 if verdict:
                     for kind, text in verdict:
                         report(kind, (kind, pre_shape), {"what": text, "schedule": hist + [step], "directory_before": _describe_dir(state, versions),
                                                          "directory_after": _describe_dir(post, versions)},
                                prestate=pre_shape, level=level, died_after=opkind(trace[k - 1]), bucket=pre_shape)
                     continue  # nothing is explored behind a state that already violates the property
-                sh = shape_of(post, known, name)
+                sh = oracle.shape(post, known)
                 step = dict(step, leaves=sh)
                 classes.setdefault(sh, []).append((post, hist + [step], had_inside or inside))
             # ---- operations that fail (OSError) and hand control back to the program
@@ -550,7 +581,7 @@ def explore(write_of, versions, depth, pieces, picks, tmp, res, tags, ident, see
                 continue
             for f in fault_points(fault, trace, info.get("nbytes") or [0] * n_ops):
                 restore_dir(d, state)
-                rc, finfo = run_write(write, path, None, pieces, seed, fault=f, versions=known, name=name)
+                rc, finfo = run_write(write, path, None, pieces, seed, fault=f, versions=known, oracle=oracle, pre=state)
                 if not finfo.get("faulted"):
                     lab("fault_not_reached")
                     continue
@@ -579,14 +610,14 @@ def explore(write_of, versions, depth, pieces, picks, tmp, res, tags, ident, see
                                 "directory_before": _describe_dir(state, versions), "directory_at_that_instant": o["dir"],
                                 "directory_when_the_write_ended": _describe_dir(post, versions)},
                                prestate=pre_shape, level=level, fault=ftag, failed_op=fkind, outcome=outcome, bucket="%s/%s failed" % (pre_shape, fkind))
-                for kind, text in judge(post, known, name):
+                for kind, text in oracle.judge(state, post, known):
                     bad = True
                     report(kind, (kind, pre_shape, "fault", fkind),
                            {"what": text, "schedule": hist + [step], "instant": "after the write ended (%s)" % outcome,
                             "directory_before": _describe_dir(state, versions), "directory_when_the_write_ended": _describe_dir(post, versions)},
                            prestate=pre_shape, level=level, fault=ftag, failed_op=fkind, outcome=outcome, bucket="%s/%s failed" % (pre_shape, fkind))
                 if not bad:
-                    sh = shape_of(post, known, name)
+                    sh = oracle.shape(post, known)
                     classes.setdefault(sh, []).append((post, hist + [dict(step, leaves=sh)], True))
         frontier = []
         for i, sh in enumerate(sorted(classes)):
@@ -598,7 +629,13 @@ def explore(write_of, versions, depth, pieces, picks, tmp, res, tags, ident, see
 
 
 # =========================================================================== payloads and call sites
-SITES = ["save_parameters", "mcmc", "optimizer", "mcmc_run", "optimizer_run", "hmc_run"]
+SITES = ["save_parameters", "mcmc", "optimizer", "mcmc_run", "optimizer_run", "hmc_run"]  # one checkpoint name, rewritten
+RUN_SITES = ["lbfgs_run"]  # Optimizer._run_closure (torch.optim.LBFGS only); optimizer_run = Optimizer._run
+ALL_SITES = ["optimizer_run_all", "lbfgs_run_all"]  # checkpoint_all=true: one file per epoch
+ALGORITHMS = {  # every optimiser family the JSON route accepts goes through Optimizer._run, except LBFGS
+    "Adam": {"lr": 0.01}, "SGD": {"lr": 0.001, "momentum": 0.9}, "Adagrad": {"lr": 0.01}, "RMSprop": {"lr": 0.001}, "AdamW": {"lr": 0.01},
+}
+OPTIMIZER_SITES = ("optimizer", "optimizer_run", "optimizer_run_all", "lbfgs_run", "lbfgs_run_all")
 
 
 def _values(n, q, a):
@@ -621,7 +658,9 @@ class Site:
         self.kind = case["site"]
         sizes = case["sizes"]
         two = case.get("two_d", [False] * len(sizes))
-        self.fname = CK_NOEXT if self.kind == "optimizer_run_all" else CK
+        self.all = self.kind.endswith("_all")
+        self.fname = case.get("ckname") or (CK_NOEXT if self.all else CK)
+        self.level = 0
         if "_run" in self.kind:  # the algorithms themselves are only defined for vectors
             two = [False] * len(sizes)
         self.two = two
@@ -634,8 +673,11 @@ class Site:
         k = self.kind
         if k == "save_parameters":
             return
-        dists = [{"id": "d%d" % q, "type": "Distribution", "distribution": "torch.distributions.Gamma", "x": pid,
-                  "parameters": {"concentration": [2.0], "rate": [1.0]}} for q, pid in enumerate(ids)]
+        if k in OPTIMIZER_SITES:  # the optimisers really move the parameters: a density defined on the whole line
+            dist, dpar = "torch.distributions.Normal", {"loc": [0.0], "scale": [10.0]}
+        else:
+            dist, dpar = "torch.distributions.Gamma", {"concentration": [2.0], "rate": [1.0]}
+        dists = [{"id": "d%d" % q, "type": "Distribution", "distribution": dist, "x": pid, "parameters": dpar} for q, pid in enumerate(ids)]
         tt.build({"id": "joint", "type": "JointDistributionModel", "distributions": dists}, dic)
         if k in ("mcmc", "mcmc_run"):
             if k == "mcmc":
@@ -645,10 +687,15 @@ class Site:
                 ops = [{"id": "op", "type": "ScalerOperator", "parameters": ids, "weight": 1.0, "scaler": 0.9}]
             spec = {"id": "mcmc", "type": "MCMC", "joint": "joint", "iterations": 1, "checkpoint": CK, "checkpoint_frequency": 1,
                     "every": 0, "operators": ops}
-        elif k in ("optimizer", "optimizer_run", "optimizer_run_all"):
-            spec = {"id": "opt", "type": "Optimizer", "algorithm": "torch.optim.Adam", "options": {"lr": 0.01}, "maximize": True,
+        elif k in OPTIMIZER_SITES:
+            if k.startswith("lbfgs"):
+                algo, options = "LBFGS", {"lr": 0.05, "max_iter": 3, "history_size": 3}
+            else:
+                algo = case.get("algo") or "Adam"
+                options = ALGORITHMS[algo]
+            spec = {"id": "opt", "type": "Optimizer", "algorithm": "torch.optim." + algo, "options": options, "maximize": True,
                     "iterations": 1, "checkpoint": self.fname, "checkpoint_frequency": 1, "loss": "joint", "parameters": ids}
-            if k == "optimizer_run_all":  # one file per checkpoint: "<name minus .json>-<epoch>.json"
+            if self.all:  # one file per checkpoint: "<name minus extension>-<epoch><extension>"
                 spec["checkpoint_all"] = True
         elif k == "hmc_run":
             spec = {"id": "hmc", "type": "HMC", "joint": "joint", "parameters": ids, "iterations": 1, "checkpoint": CK,
@@ -662,7 +709,13 @@ class Site:
         a = self.case["scales"][i]
         for q, p in enumerate(self.params):
             n = self.case["sizes"][q]
-            p.tensor = _shaped(_values(n, q, a), self.two[q])
+            v = _shaped(_values(n, q, a), self.two[q])
+            if self.kind in OPTIMIZER_SITES:  # in place: the torch optimiser holds these very tensors
+                with torch.no_grad():
+                    p.tensor.copy_(v)
+                p.fire_parameter_changed()
+            else:
+                p.tensor = v
         if self.kind in ("mcmc", "optimizer"):
             self.obj._epoch = 1000 * i + 7
 
@@ -681,20 +734,22 @@ class Site:
             import numpy as np
 
             np.random.seed(self.case.get("torch_seed", 0) % (2**32))
+            epoch = self.level + 1 if self.all else 1  # checkpoint_all: version i is the checkpoint of epoch i+1
             self.obj.checkpoint = path
-            self.obj.iterations = 1
-            self.obj._epoch = 1
+            self.obj.iterations = epoch
+            self.obj._epoch = epoch
             self.obj.run()
 
     def write_of(self, i):
         def w(path):
+            self.level = i
             self.prepare(i)
             self.write(path)
 
         return w
 
 
-def reference_texts(write_of, n, tmp, pieces, seed, name=CK):
+def reference_texts(write_of, n, tmp, pieces, seed, name=CK, names_out=None):
     """what an uninterrupted write of version i produces in a fresh directory (one child per version)"""
     out = []
     for i in range(n):
@@ -708,6 +763,8 @@ def reference_texts(write_of, n, tmp, pieces, seed, name=CK):
         if len(st_) != 1:  # (the file need not be called `name`: checkpoint_all derives a name per epoch)
             raise HarnessError("C18: a write into an empty directory left %r" % sorted(st_))
         out.append(list(st_.values())[0])
+        if names_out is not None:
+            names_out.append(list(st_)[0])
         shutil.rmtree(d)
     return out, None
 
@@ -718,14 +775,20 @@ FAULTS = [{"mode": "sticky", "errno": "ENOSPC"}, {"mode": "sticky", "errno": "ED
 BUDGET = {"quick": {1: 9000, 2: 2200, 3: 900, 4: 350}, "thorough": {1: 40000, 2: 9000, 3: 2500, 4: 900}}
 
 
-def cases(tier="quick", sites=SITES):
+def cases(tier="quick", sites=tuple(SITES + RUN_SITES + ALL_SITES)):
     @st.composite
     def gen(draw):
         depth = draw(st.sampled_from([1, 2, 2, 3, 3, 4]))
         site = draw(st.sampled_from(sites))
         budget = BUDGET[tier][depth]
-        if site != "save_parameters":
-            budget = max(40, budget // 2)  # optimiser moments / operator state come on top
+        if site in ALL_SITES and depth == 4:
+            depth = 3  # every epoch adds a file, and with it directory shapes
+        if site.startswith("lbfgs"):
+            budget = max(20, budget // 10)  # the state of LBFGS (history of directions) is ~8 times the parameters
+        elif site in OPTIMIZER_SITES:
+            budget = max(30, budget // 4)  # optimiser moments
+        elif site != "save_parameters":
+            budget = max(40, budget // 2)  # operator state comes on top
         npar = draw(st.integers(1, 40))
         sizes = []
         left = budget
@@ -738,7 +801,9 @@ def cases(tier="quick", sites=SITES):
             left -= n
         two = [draw(st.booleans()) for _ in sizes]
         scales = draw(st.lists(fl(0.1, 10.0), min_size=depth + 1, max_size=depth + 1, unique=True))
-        return {"site": site, "sizes": sizes, "two_d": two, "scales": scales, "depth": depth,
+        algo = draw(st.sampled_from(sorted(ALGORITHMS))) if site in ("optimizer", "optimizer_run", "optimizer_run_all") else None
+        ckname = draw(st.sampled_from([CK, CK_NOEXT])) if site in ALL_SITES else None
+        return {"site": site, "sizes": sizes, "two_d": two, "scales": scales, "depth": depth, "algo": algo, "ckname": ckname,
                 "pieces": draw(st.sampled_from([1, 1, 2])), "picks": draw(st.lists(st.integers(0, 50), min_size=1, max_size=4)),
                 "fault": draw(st.sampled_from(FAULTS)), "torch_seed": draw(st.integers(0, 2**31 - 1))}
 
@@ -780,7 +845,8 @@ def _body(c, tmp):
     if threading.active_count() != 1:
         raise HarnessError("C18: fork from a multi-threaded python process")
     seed = c.get("torch_seed", 0)
-    versions, info = reference_texts(site.write_of, c["depth"] + 1, tmp, 1, seed, site.fname)
+    names = []
+    versions, info = reference_texts(site.write_of, c["depth"] + 1, tmp, 1, seed, site.fname, names)
     if versions is None:
         return res.fail("raises:" + info["raised"], {"message": info["message"], "where": "write into an empty directory"}, prestate="empty", bucket="empty")
     for i, v in enumerate(versions):
@@ -792,7 +858,8 @@ def _body(c, tmp):
         raise HarnessError("C18: two versions of the checkpoint have identical text")
     ident = (c["site"], c["sizes"], c["two_d"], c["pieces"])
     fault = c.get("fault")
-    evals, keys, labels, _ = explore(site.write_of, versions, c["depth"], c["pieces"], c["picks"], tmp, res, res.tags, ident, seed, name=site.fname, fault=fault)
+    evals, keys, labels, _ = explore(site.write_of, versions, c["depth"], c["pieces"], c["picks"], tmp, res, res.tags, ident, seed, name=site.fname, fault=fault,
+                                    oracle=Oracle(site.fname, site.all), first_name=names[0] if site.all else None)
     labels["faults:%s" % (("%s/%s" % (fault["mode"], fault["errno"])) if fault else "none")] = 1
     labels["site:" + c["site"]] = evals
     labels["file:" + size_band(max(len(v) for v in versions))] = evals
@@ -948,7 +1015,7 @@ def syscall_cases(tier="thorough"):
     @st.composite
     def gen(draw):
         level = draw(st.sampled_from([1, 2, 2]))
-        site = draw(st.sampled_from(SITES))
+        site = draw(st.sampled_from(SITES + RUN_SITES))
         npar = draw(st.integers(1, 12))
         sizes = [draw(st.one_of(st.integers(1, 12), st.integers(1, 900))) for _ in range(npar)]
         scales = draw(st.lists(fl(0.1, 10.0), min_size=level + 1, max_size=level + 1, unique=True))
@@ -1038,12 +1105,23 @@ def fixed_cases(tier):
                             "depth": depth, "pieces": 2, "picks": [0, 1, 2, 3], "fault": FAULTS[(i + 3 * j) % len(FAULTS)], "torch_seed": 1})
     # Optimizer with checkpoint_all and a checkpoint name without ".json": one interrupted write
     out.append({"site": "optimizer_run_all", "sizes": [2], "two_d": [False], "scales": [1.5, 2.5], "depth": 1, "pieces": 1, "picks": [0], "fault": None, "torch_seed": 1})
+    # every loop that writes a checkpoint, through Runnable.run: Optimizer._run_closure (LBFGS), Optimizer._run with every
+    # optimiser family, checkpoint_all off (one name, rewritten) and on (a file per epoch)
+    deep = tier != "quick"
+    sc = [1.5, 2.5, 3.5, 4.5]
+    base = {"sizes": [3, 2], "two_d": [False, False], "pieces": 2 if deep else 1, "picks": [0, 1, 2], "torch_seed": 1}
+    out.append(dict(base, site="lbfgs_run", depth=3 if deep else 2, scales=sc[: (4 if deep else 3)], fault=FAULTS[0]))
+    for algo in sorted(ALGORITHMS):
+        if algo != "Adam":
+            out.append(dict(base, site="optimizer_run", algo=algo, depth=2 if deep else 1, scales=sc[: (3 if deep else 2)], fault=FAULTS[2] if deep else None))
+    for site, ck in (("optimizer_run_all", CK), ("lbfgs_run_all", CK), ("lbfgs_run_all", CK_NOEXT)):
+        out.append(dict(base, site=site, ckname=ck, depth=3 if deep else 2, scales=sc[: (4 if deep else 3)], fault=FAULTS[4] if deep else None))
     return out
 
 
 def subchecks(tier):
     subs = [
-        Sub("schedules", body, strategy=lambda: cases(tier), quick=16, thorough=220, pretags=pretags, shrink_s=20),
+        Sub("schedules", body, strategy=lambda: cases(tier), quick=14, thorough=200, pretags=pretags, shrink_s=20),
         Sub("fixed", body, enumerate=fixed_cases, exhaustive=True, pretags=pretags),
     ]
     if tier == "thorough":
